@@ -47,7 +47,7 @@ cls("DatasetInfo", metadata="ref:Metadata", dataset_structure="ref:DatasetStruct
 cls("DatasetBase", path="U", _dataset_info="ref:DatasetInfo")
 cls("DatasetIteration", base="DatasetBase")
 cls("DatasetWriting", base="DatasetBase")
-cls("Dataset", base="DatasetIteration")
+cls("Dataset", base=["DatasetIteration", "DatasetWriting"])
 
 # shard readers: value-like objects, behaviour fixed by class + these two fields
 cls("IterateShardBase", dataset_structure="ref:DatasetStructure", process_record="optfunc",
